@@ -30,6 +30,18 @@ TYPES = {
 }
 
 
+class Fake:
+    """An input described only by the attributes a validator looks at (kind 'ndarray' / 'other'; ndim, size, shape, dtype ...).
+    Reading an attribute the object does not have raises AttributeError, like the real thing."""
+
+    def __init__(self, kind, **attrs):
+        self.kind = kind
+        self.attrs = attrs
+
+    def __repr__(self):
+        return f"<{self.kind} {self.attrs}>"
+
+
 class Obj:
     """`self`: attribute store"""
 
@@ -45,11 +57,17 @@ def ev(e, env):
             return env[e.id]
         if e.id in ("None", "True", "False"):
             return {"None": None, "True": True, "False": False}[e.id]
+        if e.id in ("int", "float", "complex", "bool", "str"):
+            return "dtype:" + e.id  # dtypes compare by name with the stand-in arrays' dtype attribute
         raise Unmodelled(f"name {e.id}")
     if isinstance(e, ast.JoinedStr):
         return "<message>"
     if isinstance(e, ast.Attribute):
         base = ev(e.value, env)
+        if isinstance(base, Fake):
+            if e.attr in base.attrs:
+                return base.attrs[e.attr]
+            raise Raised("AttributeError", e)
         if isinstance(base, Obj):
             if e.attr in base.attrs:
                 return base.attrs[e.attr]
@@ -101,6 +119,14 @@ def ev(e, env):
         return True
     if isinstance(e, (ast.Tuple, ast.List)):
         return [ev(x, env) for x in e.elts] if isinstance(e, ast.List) else tuple(ev(x, env) for x in e.elts)
+    if isinstance(e, ast.Subscript):
+        base = ev(e.value, env)
+        idx = ev(e.slice, env)
+        if isinstance(base, (tuple, list)) and isinstance(idx, int):
+            if not -len(base) <= idx < len(base):
+                raise Raised("IndexError", e)
+            return base[idx]
+        raise Unmodelled(ast.unparse(e)[:60])
     if isinstance(e, ast.Call):
         d = ast.unparse(e.func)
         if d == "isinstance" and len(e.args) == 2:
@@ -109,6 +135,11 @@ def ev(e, env):
             names = [ast.unparse(x) for x in t.elts] if isinstance(t, ast.Tuple) else [ast.unparse(t)]
             res = False
             for n in names:
+                if n in ("np.ndarray", "numpy.ndarray", "ndarray"):
+                    res = res or (isinstance(v, Fake) and v.kind == "ndarray")
+                    continue
+                if isinstance(v, Fake):
+                    continue  # a stand-in object is none of the python scalar types
                 if n not in TYPES:
                     raise Unmodelled(f"isinstance against {n}")
                 ty = TYPES[n]
